@@ -260,6 +260,8 @@ class FunctionDecoratorManager(DecoratorManager):
         _LOGGER.debug("Dispatching for %s: %s", self.name, data)
 
         decorators = self.get_decorators(TriggerHandlerDecorator)
+        # an occurrence another guard rejects must not start @time_active's hold_off window
+        decorators = sorted(decorators, key=lambda dec: dec.records_accepted)
         for dec in decorators:
             if await dec.handle_dispatch(data) is False:
                 self.logger.debug("Trigger not active due to %s", dec)
